@@ -67,7 +67,9 @@ type Task struct {
 	CallIdx int // set by the harness: index of the call the task is executing
 	Panic   any
 	lastSite int
+	Root    int // the root task this goroutine descends from (itself for a caller task)
 	parent  int
+	pending map[cellKey]*pendRead // reads of package variables mentioned in the current call, not yet committed
 }
 
 const (
@@ -94,6 +96,7 @@ type Sched struct {
 	AbortYields int // a library call that is still yielding after this many is unwound with ErrBudget
 	Overrun   bool
 	globalSync []uint32
+	wseq      int
 	MaxTasks  int // beyond this many tasks, go statements run inline
 	GoCalls   int
 	InlineGo  int
@@ -101,7 +104,8 @@ type Sched struct {
 	done      chan struct{}
 	Deadlock  bool
 	Races     []Race
-	vars      map[any]*varState
+	cells     map[cellKey]*cell
+	subsOf    map[int][]uintptr
 	Switches  int // context switches taken strictly inside a call (preemptions)
 	Frozen    bool // no more preemptions (after a violation was seen, or the cap was hit)
 	Stalled   bool
@@ -113,20 +117,9 @@ type Sched struct {
 
 var sched *Sched
 
-type varState struct {
-	wTask, wSite, wCall int
-	wClock              uint32
-	hasW                bool
-	reads               map[int]readRec
-}
-type readRec struct {
-	clock      uint32
-	site, call int
-}
-
 func NewSched(rng *Rand) *Sched {
 	return &Sched{Rng: rng, PreemptAt: map[PKey]bool{}, PreemptGlobal: map[int]bool{}, MaxYields: 5_000_000, MaxTasks: 192,
-		vars: map[any]*varState{}, mutexes: map[any]*simMutex{}, onces: map[*sync.Once]*simOnce{}, wgs: map[*sync.WaitGroup]*simWG{}}
+		cells: map[cellKey]*cell{}, subsOf: map[int][]uintptr{}, mutexes: map[any]*simMutex{}, onces: map[*sync.Once]*simOnce{}, wgs: map[*sync.WaitGroup]*simWG{}}
 }
 
 // NewReplaySched builds a scheduler that follows an explicit decision list.
@@ -146,6 +139,7 @@ func NewReplaySched(ds []SchedDecision) *Sched {
 
 func (s *Sched) AddTask(fn func(), order *OrderSource) *Task {
 	t := &Task{ID: len(s.Tasks), Fn: fn, Order: order, wake: make(chan struct{}, 1), parent: -1}
+	t.Root = t.ID
 	s.Tasks = append(s.Tasks, t)
 	return t
 }
@@ -234,6 +228,7 @@ func (s *Sched) startGoroutine(t *Task) {
 			}()
 			t.Fn()
 		}()
+		s.CommitReads(t, 1)
 		t.state = stDone
 		s.wakeWaiters()
 		if s.OnStep != nil {
@@ -368,7 +363,7 @@ func Enter(site int) {
 		s.yield(site, 0)
 		return
 	}
-	if stepBudget > 0 {
+	if stepBudget > 0 && !RealGo {
 		Steps++
 		if Steps > stepBudget {
 			stepBudget = 0
@@ -387,26 +382,6 @@ var (
 )
 
 func SetStepBudget(n int64) { Steps, stepBudget, Aborted = 0, n, false }
-
-// Access marks a statement that touches a package-level variable.
-func Access(site, v, kind int) {
-	if !Active {
-		return
-	}
-	s := sched
-	if s == nil || s.cur == nil {
-		return
-	}
-	s.yield(site, 1)
-	if kind&2 != 0 {
-		// access inside a statement that performs an atomic / sync.Map / sync.Pool operation
-		s.cur.acquire(s.globalSync)
-		s.access(site, v, kind&1)
-		s.cur.release(&s.globalSync)
-		return
-	}
-	s.access(site, v, kind)
-}
 
 // SyncOp marks a synchronisation operation the simulator does not model in detail
 // (sync/atomic, sync.Pool, sync.Map): it is a yield point and counts as synchronisation.
@@ -433,28 +408,16 @@ func (t *Task) Clock() uint32 {
 	return 0
 }
 
-// SyntheticWrite records a write to package variable v by task t that was observed through
-// a changed state hash rather than through an instrumented statement (a write through an
-// alias, a pointer or a method). clock is the task's clock at the START of the step in which
-// the change was seen - the earliest moment the write can have happened - so that a write
-// made inside a critical section is never reported as unordered.
-func (s *Sched) SyntheticWrite(t *Task, v int, clock uint32, site int) {
-	st := s.vars[v]
-	if st == nil {
-		st = &varState{reads: map[int]readRec{}}
-		s.vars[v] = st
-	}
-	if st.hasW && st.wTask != t.ID && !hb(st.wClock, st.wTask, t.vc) {
-		s.Races = append(s.Races, Race{Var: v, Kind: "W-W", TaskA: st.wTask, TaskB: t.ID, SiteA: st.wSite, SiteB: site, CallA: st.wCall, CallB: t.CallIdx})
-	}
-	for rt, rr := range st.reads {
-		if rt != t.ID && !hb(rr.clock, rt, t.vc) {
-			s.Races = append(s.Races, Race{Var: v, Kind: "R-W", TaskA: rt, TaskB: t.ID, SiteA: rr.site, SiteB: site, CallA: rr.call, CallB: t.CallIdx})
+// Addr evaluates f (which takes the address of a component of a package variable) and
+// returns the pointer, or nil if that panics (nil pointer, index out of range: the hook is
+// evaluated before the statement, possibly before the check that guards it).
+func Addr(f func() any) (p any) {
+	defer func() {
+		if recover() != nil {
+			p = nil
 		}
-	}
-	st.hasW = true
-	st.wTask, st.wSite, st.wCall, st.wClock = t.ID, site, t.CallIdx, clock
-	st.reads = map[int]readRec{}
+	}()
+	return f()
 }
 
 // LastSite returns the site of the task's most recent yield.
@@ -473,59 +436,6 @@ func CurTask() *Task {
 		return s.cur
 	}
 	return nil
-}
-
-func hb(clock uint32, task int, vc []uint32) bool { return task < len(vc) && clock <= vc[task] }
-
-func (s *Sched) access(site, v, kind int) { s.accessKey(site, v, v, kind) }
-
-// AccessL marks a statement that touches a local variable shared with goroutines the
-// library started (captured by a `go func(){...}` closure); p is its address.
-func AccessL(site, v, kind int, p any) {
-	if !Active {
-		return
-	}
-	s := sched
-	if s == nil || s.cur == nil {
-		return
-	}
-	s.yield(site, 1)
-	if kind&2 != 0 {
-		s.cur.acquire(s.globalSync)
-		s.accessKey(site, v, p, kind&1)
-		s.cur.release(&s.globalSync)
-		return
-	}
-	s.accessKey(site, v, p, kind)
-}
-
-func (s *Sched) accessKey(site, v int, key any, kind int) {
-	t := s.cur
-	st := s.vars[key]
-	if st == nil {
-		st = &varState{reads: map[int]readRec{}}
-		s.vars[key] = st
-	}
-	my := t.vc[t.ID]
-	if st.hasW && st.wTask != t.ID && !hb(st.wClock, st.wTask, t.vc) {
-		k := "W-R"
-		if kind == Write {
-			k = "W-W"
-		}
-		s.Races = append(s.Races, Race{Var: v, Kind: k, TaskA: st.wTask, TaskB: t.ID, SiteA: st.wSite, SiteB: site, CallA: st.wCall, CallB: t.CallIdx})
-	}
-	if kind == Write {
-		for rt, rr := range st.reads {
-			if rt != t.ID && !hb(rr.clock, rt, t.vc) {
-				s.Races = append(s.Races, Race{Var: v, Kind: "R-W", TaskA: rt, TaskB: t.ID, SiteA: rr.site, SiteB: site, CallA: rr.call, CallB: t.CallIdx})
-			}
-		}
-		st.hasW = true
-		st.wTask, st.wSite, st.wCall, st.wClock = t.ID, site, t.CallIdx, my
-		st.reads = map[int]readRec{}
-	} else {
-		st.reads[t.ID] = readRec{clock: my, site: site, call: t.CallIdx}
-	}
 }
 
 func join(dst, src []uint32) {
@@ -767,7 +677,7 @@ func WGAdd(site int, w *sync.WaitGroup, n int) {
 		s.yield(site, 1)
 		return
 	}
-	if Active {
+	if Active && !RealGo {
 		return // single-task simulation: Go runs inline, nothing to wait for
 	}
 	w.Add(n)
@@ -778,7 +688,7 @@ func WGAddDone(site int, w *sync.WaitGroup) {
 		WGAdd(site, w, -1)
 		return
 	}
-	if Active {
+	if Active && !RealGo {
 		return
 	}
 	w.Done()
@@ -796,7 +706,7 @@ func WGWait(site int, w *sync.WaitGroup) {
 		t.acquire(g.vc)
 		return
 	}
-	if Active {
+	if Active && !RealGo {
 		return
 	}
 	w.Wait()
@@ -817,7 +727,7 @@ func Go(site int, f func()) {
 			f()
 			return
 		}
-		t := &Task{ID: len(s.Tasks), Fn: f, Order: p.Order, wake: make(chan struct{}, 1), parent: p.ID, CallIdx: p.CallIdx, depth: p.depth, SyncOps: 1}
+		t := &Task{ID: len(s.Tasks), Fn: f, Order: p.Order, wake: make(chan struct{}, 1), parent: p.ID, CallIdx: p.CallIdx, depth: p.depth, SyncOps: 1, Root: p.Root}
 		s.Tasks = append(s.Tasks, t)
 		// grow vector clocks
 		for _, o := range s.Tasks {
@@ -832,11 +742,65 @@ func Go(site int, f func()) {
 		s.yield(site, 1)
 		return
 	}
-	if Active {
+	if Active && !RealGo {
 		f()
 		return
 	}
 	go f()
+}
+
+// Go1..Go8 replace `go F(a, ...)`: F and the arguments are evaluated here, at the statement.
+func Go1[A any](site int, f func(A), a A) { Go(site, func() { f(a) }) }
+func Go2[A, B any](site int, f func(A, B), a A, b B) { Go(site, func() { f(a, b) }) }
+func Go3[A, B, C any](site int, f func(A, B, C), a A, b B, c C) { Go(site, func() { f(a, b, c) }) }
+func Go4[A, B, C, D any](site int, f func(A, B, C, D), a A, b B, c C, d D) {
+	Go(site, func() { f(a, b, c, d) })
+}
+func Go5[A, B, C, D, E any](site int, f func(A, B, C, D, E), a A, b B, c C, d D, e E) {
+	Go(site, func() { f(a, b, c, d, e) })
+}
+func Go6[A, B, C, D, E, F any](site int, f func(A, B, C, D, E, F), a A, b B, c C, d D, e E, g F) {
+	Go(site, func() { f(a, b, c, d, e, g) })
+}
+func Go7[A, B, C, D, E, F, G any](site int, f func(A, B, C, D, E, F, G), a A, b B, c C, d D, e E, g F, h G) {
+	Go(site, func() { f(a, b, c, d, e, g, h) })
+}
+func Go8[A, B, C, D, E, F, G, H any](site int, f func(A, B, C, D, E, F, G, H), a A, b B, c C, d D, e E, g F, h G, i H) {
+	Go(site, func() { f(a, b, c, d, e, g, h, i) })
+}
+
+// shimOnces: the sync.Once values hidden inside closures made by OnceFunc/OnceValue(s).
+// Those created before the snapshot (package initialisers) are reset with the package state.
+var shimOnces []*sync.Once
+var shimFuncPtrs = map[uintptr]bool{}
+
+func newShimOnce() *sync.Once {
+	o := &sync.Once{}
+	shimOnces = append(shimOnces, o)
+	return o
+}
+
+// OnceFunc, OnceValue, OnceValues replace the sync functions of the same name.
+func OnceFunc(site int, f func()) func() {
+	o := newShimOnce()
+	r := func() { OnceDo(site, o, f) }
+	noteShimFunc(r)
+	return r
+}
+func OnceValue[T any](site int, f func() T) func() T {
+	o := newShimOnce()
+	var v T
+	r := func() T { OnceDo(site, o, func() { v = f() }); return v }
+	noteShimFunc(r)
+	return r
+}
+func OnceValues[T1, T2 any](site int, f func() (T1, T2)) func() (T1, T2) {
+	o := newShimOnce()
+	var v1 T1
+	var v2 T2
+	r := func() (T1, T2) { OnceDo(site, o, func() { v1, v2 = f() }); return v1, v2 }
+	noteShimFunc(r)
+	return r
 }
 
 // ---- registration of package-level state (generated code calls this from init) ----
